@@ -68,6 +68,20 @@ partial def readAll (h : IO.FS.Stream) (acc : Array String) : IO (Array String) 
 def histStr (k : String) (i : Nat) (h : Array (Int × Int)) : String :=
   h.foldl (fun s (x, t) => s ++ s!" {x},{t}") s!"H {k} {i} {h.size} :"
 
+/-- what `cmb_timeseries_summarize` + `cmb_wtdsummary_mean` must give for this history, as exact integers: the total weight
+    (sum of the durations of all samples but the last) and the weighted sum of the values; `big` when the numbers leave the
+    range in which the library's doubles are exact to the unit -/
+def wsumStr (k : String) (i : Nat) (h : Array (Int × Int)) : String :=
+  let n := h.size
+  if n < 2 then s!"W {k} {i} n={n} wsum=0 wx=0" else
+  let t0 := (h[0]!).2
+  let tn := (h[n - 1]!).2
+  let big := h.any (fun (x, _) => x.natAbs ≥ 2 ^ 40) || (tn - t0).natAbs ≥ 2 ^ 20
+  if big then s!"W {k} {i} n={n} wsum=big wx=big" else
+  let wx := (List.range (n - 1)).foldl (fun acc j => acc + (h[j]!).1 * ((h[j + 1]!).2 - (h[j]!).2)) (0 : Int)
+  if tn - t0 = 0 then s!"W {k} {i} n={n} wsum=0 wx=0" else
+  s!"W {k} {i} n={n} wsum={tn - t0} wx={wx}"
+
 def gcount (w : World) (g : Nat) : Nat := (w.guards[g]?.map (·.q.count)).getD 0
 
 def dump (w : World) : Array String := Id.run do
@@ -112,6 +126,16 @@ def dump (w : World) : Array String := Id.run do
     o := o.push (histStr "oq" i (w.oqs[i]?.map (·.hist)).get!)
   for i in [0:w.pqs.size] do
     o := o.push (histStr "pq" i (w.pqs[i]?.map (·.hist)).get!)
+  for i in [0:w.res.size] do
+    o := o.push (wsumStr "res" i (w.res[i]?.map (·.hist)).get!)
+  for i in [0:w.pools.size] do
+    o := o.push (wsumStr "pool" i (w.pools[i]?.map (·.hist)).get!)
+  for i in [0:w.bufs.size] do
+    o := o.push (wsumStr "buf" i (w.bufs[i]?.map (·.hist)).get!)
+  for i in [0:w.oqs.size] do
+    o := o.push (wsumStr "oq" i (w.oqs[i]?.map (·.hist)).get!)
+  for i in [0:w.pqs.size] do
+    o := o.push (wsumStr "pq" i (w.pqs[i]?.map (·.hist)).get!)
   return o
 
 def main : IO Unit := do
